@@ -513,6 +513,12 @@ class DriverLubaRs232(DriverSerialBase):
                 _LOG.trace(
                     f"LUBA frame to send: {[f'0x{data:02x}' for data in tx_ints]}"
                 )
+                # A confirmation left over from an earlier command (one
+                # that timed out or was cancelled) must not be taken as
+                # the confirmation of this one
+                while not self._queue_tx_conf.empty():
+                    stale = self._queue_tx_conf.get_nowait()
+                    _LOG.warning(f"LUBA discarding stale TX confirmation: {stale}")
                 self.transport.write(bytearray(tx_ints))
 
                 # Wait for the LUBA device to respond, considering whether the
